@@ -3,10 +3,11 @@ use crate::shard::MonitorDef;
 pub mod c13;
 pub mod c14;
 pub mod c15;
+pub mod c18;
 pub mod c20;
 
 pub fn all() -> Vec<MonitorDef> {
-	vec![c13::def(), c14::def(), c15::def(), c20::def()]
+	vec![c13::def(), c14::def(), c15::def(), c18::def(), c20::def()]
 }
 
 /// non-property sub-commands (helpers used by the driver); none yet
